@@ -15,7 +15,8 @@ MCDurs == {Dz(0, 0, 0, 1, 0, 0, 0), Dz(0, 0, 0, 0, 24, 0, 0), Dz(0, 0, 0, 0, 25,
 Modes5 == {"halfExpand", "ceil", "floor", "trunc", "halfEven"}
 MCOpts == {[lg |-> lg, sm |-> sm, inc |-> inc, mode |-> m] : lg \in {"year", "month", "week", "day", "hour"}, sm \in {"month", "week", "day", "hour", "minute", "second", "nanosecond"},
                                                              inc \in {1, 2, 15}, m \in Modes5}
-QInstants == {-86400 - 6 * H, 7 * H - 1800, 7 * H, 12 * H, 86400 + 6 * H, 20 * 86400 - 12 * H, 20 * 86400 + 6 * H, 19 * 86400 + 5 * H + 1800, -30 * 86400 + 3 * H}
+QInstants == {-86400 - 6 * H, 7 * H - 1800, 7 * H, 12 * H, 86400 + 6 * H, 86400 + 12 * H,   \* (the last one: two wall days after the skipped day - one day back lands on it)
+              20 * 86400 - 12 * H, 20 * 86400 + 6 * H, 19 * 86400 + 5 * H + 1800, -30 * 86400 + 3 * H}
 QOpts == {o \in MCOpts : o.mode \in {"halfExpand", "ceil", "trunc"} /\ o.inc \in {1, 2}}
 QDiffModes == {"halfExpand"}
 TDiffModes == Modes5
